@@ -8,14 +8,26 @@ namespace ErgVerif.C10
 open ErgVerif.Lex
 
 inductive Kind where
-  | comment | comment0 | spaces | blank | commentline | commentline0 | cont | cont0 | mlcomment | mlcommentSp | parens
+  | comment | comment0 | spaces | blank (n : Nat) | commentline (n : Nat) | commentlinep (n : Nat) | commentline0 | cont | cont0
+  | mlcomment | mlcommentSp | parens
   deriving DecidableEq, Repr
 
 def Kind.ofString : String → Option Kind
-  | "comment" => some .comment | "comment0" => some .comment0 | "spaces" => some .spaces | "blank" => some .blank
-  | "commentline" => some .commentline | "commentline0" => some .commentline0 | "cont" => some .cont | "cont0" => some .cont0
+  | "comment" => some .comment | "comment0" => some .comment0 | "spaces" => some .spaces
+  | "blank" => some (.blank 1) | "blank2" => some (.blank 2) | "blank3" => some (.blank 3) | "blank4" => some (.blank 4)
+  | "commentline" => some (.commentline 1) | "commentline2" => some (.commentline 2) | "commentline3" => some (.commentline 3)
+  | "commentline4" => some (.commentline 4)
+  | "commentlinep" => some (.commentlinep 1) | "commentlinep2" => some (.commentlinep 2) | "commentlinep3" => some (.commentlinep 3)
+  | "commentlinep4" => some (.commentlinep 4)
+  | "commentline0" => some .commentline0 | "cont" => some .cont | "cont0" => some .cont0
   | "mlcomment" => some .mlcomment | "mlcomment-sp" => some .mlcommentSp | "parens" => some .parens
   | _ => none
+
+def repeatList (n : Nat) (l : List Char) : List Char := (List.replicate n l).flatten
+
+/-- the text of the line that ends just before offset `k - 1` (i.e. the line preceding the line that starts at `k`) -/
+def prevLine (cs : List Char) (k : Nat) : List Char :=
+  ((cs.take (k - 1)).reverse.takeWhile (· ≠ '\n')).reverse
 
 def isAlnum (c : Char) : Bool := c.isAlphanum || c = '_'
 
@@ -30,8 +42,12 @@ def rewrite (kind : Kind) (k : Nat) (src : List Char) : Option (List Char) :=
     | .comment => some (pre ++ " # c é".toList ++ post)
     | .comment0 => some (pre ++ "#c".toList ++ post)
     | .spaces => some (pre ++ "   ".toList ++ post)
-    | .blank => some (pre ++ ['\n'] ++ post)
-    | .commentline => some (pre ++ List.replicate (post.takeWhile (· = ' ')).length ' ' ++ "# c\n".toList ++ post)
+    | .blank n => some (pre ++ List.replicate n '\n' ++ post)
+    | .commentline n =>
+      some (pre ++ repeatList n (List.replicate (post.takeWhile (· = ' ')).length ' ' ++ "# c\n".toList) ++ post)
+    | .commentlinep n =>
+      if k = 0 || cs[k - 1]? ≠ some '\n' then none
+      else some (pre ++ repeatList n (List.replicate ((prevLine cs k).takeWhile (· = ' ')).length ' ' ++ "# c\n".toList) ++ post)
     | .commentline0 => some (pre ++ "# c\n".toList ++ post)
     | .cont => some (pre ++ " \\\n".toList ++ post)
     | .cont0 => some (pre ++ "\\\n".toList ++ post)
@@ -67,11 +83,42 @@ def compareToks (a b : List Char) : Cmp :=
 def rewriteCmp (kind : Kind) (k : Nat) (src : List Char) : Option Cmp :=
   (rewrite kind k src).map (compareToks src)
 
-/-- classes of the recorded findings (decidable on the input: the rewrite kind) -/
-def findingClass : Kind → String
+def dropTrailingSpaces (l : List Char) : List Char := (l.reverse.dropWhile (· = ' ')).reverse
+
+def hasInfix (pat : List Char) : List Char → Bool
+  | [] => pat.isEmpty
+  | c :: cs => pat.isPrefixOf (c :: cs) || hasInfix pat cs
+
+/-- the line before offset `k` opens a class-attribute block: it ends with `.` or `::`, or is `C::[<restriction>]` -/
+def afterClassOpener (src : List Char) (k : Nat) : Bool :=
+  let l := dropTrailingSpaces (prevLine (normalizeNewline src) k)
+  l.getLast? = some '.' || (l.reverse.take 2 = [':', ':']) || (l.getLast? = some ']' && hasInfix [':', ':', '['] l)
+
+/-- the line before offset `k` is a decorator line (`@...`) -/
+def afterDecorator (src : List Char) (k : Nat) : Bool :=
+  ((prevLine (normalizeNewline src) k).dropWhile (· = ' ')).head? = some '@'
+
+/-- offset `k` lies on an empty line (it is the offset of a line break that directly follows a line break or starts the text) -/
+def onEmptyLine (src : List Char) (k : Nat) : Bool :=
+  let cs := normalizeNewline src
+  k = 0 || cs[k - 1]? = some '\n'
+
+/-- classes of the recorded findings (decidable on the input: rewrite kind, offset, source) -/
+def findingClass (kind : Kind) (k : Nat) (src : List Char) : String :=
+  match kind with
   | .mlcommentSp => "C10-space-after-ml-comment"
   | .commentline0 => "C10-comment-line-dedent"
   | .cont0 => "C10-continuation-after-operator"
+  | .spaces | .comment =>
+    if onEmptyLine src k then "C10-whitespace-only-line"
+    else if ((normalizeNewline src).take k).reverse.take 2 = ['#', ']'] then "C10-space-after-ml-comment" else "-"
+  | .blank _ => if afterClassOpener src k then "C10-blank-after-class-opener" else if afterDecorator src k then "C10-blank-after-decorator" else "-"
+  | .commentline _ =>
+    if afterClassOpener src k then "C10-blank-after-class-opener" else if afterDecorator src k then "C10-blank-after-decorator"
+    else if (((normalizeNewline src).drop k).takeWhile (· = ' ')).isEmpty then "C10-comment-line-dedent" else "-"   -- the comment lands in column 0
+  | .commentlinep _ =>
+    if afterClassOpener src k then "C10-blank-after-class-opener" else if afterDecorator src k then "C10-blank-after-decorator"
+    else if ((prevLine (normalizeNewline src) k).takeWhile (· = ' ')).isEmpty then "C10-comment-line-dedent" else "-"
   | _ => "-"
 
 end ErgVerif.C10
